@@ -193,6 +193,13 @@ func buildReverseDFA(
 	revDFAConfig := dfaConfig
 	revDFAConfig.BreakAtMatch = false
 
+	// The reverse NFA turns look-around states (^, $, \b, \B) into plain epsilons,
+	// so the reverse scan may accept a start position the assertions forbid.
+	// Without a reverse DFA the callers fall back to PikeVM for the match bounds.
+	if hasAnchorAssertions(re) && !nfaEngine.IsAlwaysAnchored() {
+		return result
+	}
+
 	switch result.finalStrategy {
 	case UseDFA:
 		// Skip for non-greedy patterns: forward DFA always finds leftmost-longest,
